@@ -2,7 +2,7 @@
    gen/Paths_c04.v, regenerated from /repo's source by tools/genpaths on every
    run, so these theorems are re-checked against what the code says now. *)
 From Coq Require Import List String Bool Arith ZArith.
-From Verif Require Import lib.Wire c04.Events c04.Model c04.Close c04.Accept c04.Spec c04.Proofs c04.Proofs_Close c04.Proofs_Accept gen.Paths_c04.
+From Verif Require Import lib.Wire c04.Events c04.Model c04.Close c04.Accept c04.CloseOnce c04.Spec c04.Proofs c04.Proofs_Close c04.Proofs_Accept c04.Proofs_Once gen.Paths_c04.
 Import ListNotations.
 
 (* Every control-flow path of every listed entry point — with the listed callees
@@ -110,6 +110,24 @@ Theorem c04_accept_invariant : forall c ops, ainv (arun_l (l0 c) ops).
 Proof. intros c ops. exact (ainv_run ops (l0 c) (ainv0 c)). Qed.
 Print Assumptions c04_accept_invariant.
 
+(* ---- closeOnce and the refs WaitGroup (CloseOnce.v) ----------------------------
+   "After a swarm ... has been closed": whenever ANY caller's Swarm.Close has
+   returned — the one that ran close() or one that was blocked in closeOnce.Do —
+   close() has finished and every count of s.refs has been given back, i.e. every
+   listener's accept goroutine, every connection's start loop and close
+   notification, every goroutine adding an accepted connection and every goroutine
+   close() started has ended; for every schedule, any number of callers. *)
+Theorem c04_close_once_returned_means_done : forall n ops,
+  let s := crun (c0 n) ops in
+  some_returned s = true -> bd s = B3 /\ all_done s = true.
+Proof. intros n ops s H. exact (returned_all_done _ (cinv_run ops (c0 n) (cinv0 n)) H). Qed.
+Print Assumptions c04_close_once_returned_means_done.
+
+Theorem c04_once_monitor_accepts_model : forall n ops,
+  monitor_case (9 :: once_case (crun (c0 n) ops))%Z = [].
+Proof. intros n ops. exact (once_case_accepted _ (cinv_run ops (c0 n) (cinv0 n))). Qed.
+Print Assumptions c04_once_monitor_accepts_model.
+
 (* ---- non-vacuity ---------------------------------------------------------- *)
 (* a race: conn 0 registered with a stream, the swarm closes, conn 1's add and
    a second stream on conn 0 arrive late; at quiescence everything is released *)
@@ -182,3 +200,11 @@ Example accept_conform_rejects :
   (conform_case [8; 1; 1;0;0;0;0;0; 1; 0;1; 4; 1;0; 6;0; 7;0; 2;0]%Z <> []) /\
   (conform_case [8; 1; 1;0;0;0;0;0; 1; 0;1; 4; 1;0; 6;0; 2;0; 7;0]%Z = []).
 Proof. vm_compute. split; [discriminate|reflexivity]. Qed.
+
+(* two callers: the second is blocked until close() has finished; before that nobody has returned *)
+Example once_example :
+  let s1 := crun (c0 2) [HStartReg; KCall 0; KCall 1; BodyCS; KUnblock 1; BodyWait] in
+  let s2 := crun s1 [HEnd 0; BodyWait; BodyEnd; KUnblock 1] in
+  (some_returned s1 = false) /\ (all_done s1 = false) /\ (callers s2 = [KReturned; KReturned]) /\ (all_done s2 = true) /\
+  (conform_case [9; 2; 1; 1]%Z = []) /\ (monitor_case [9; 2; 1; 0]%Z <> []).
+Proof. vm_compute. repeat split; try reflexivity; discriminate. Qed.
